@@ -199,6 +199,9 @@ def meta_to_job(prog: dict, meta: dict) -> dict | None:
         return {"kind": "redeliver", "prog": prog, "cases": [(meta["victim"], meta["after"])],
                 "opts": {"restart": meta.get("restart", False), "reset_bloom": meta.get("reset", False),
                          "trust": meta.get("trust", False)}}
+    if k == "signal-crash":
+        return {"kind": "signal-crash", "prog": prog, "cases": [(meta["signal_at"], meta["crash_at"])],
+                "pers": meta.get("pers", True), "late_expire": meta.get("late_expire", False)}
     if k == "fifo":
         return {"kind": "fifo", "prog": prog}
     return None
